@@ -21,9 +21,14 @@ TEXT = {
             "and judged by the prefix-state oracle; continuation + restart on a quarter of them. Lean theorems for the byte-level torn-tail "
             "and resume lemmas are in progress (DESIGN §6 C02); until they are integrated this check claims fault enumeration, not proof.",
             "crash-point enumeration on the real library, differential against the executable Lean model (recover/crashImage)"),
-    "C03": ("As C02 under all policies with persist points; the recovered state must be at least as recent as the last persist point. "
-            "Lean theorems (unlink_after_sync, persist points, BufWriter emptiness) in progress.",
-            "crash-point enumeration under 7 policies, differential against the executable Lean model"),
+    "C03": ("Proved in Lean (partial): unlink_after_sync (+_open, +_split) — in the effects of every call and of open, every unlink is preceded "
+            "by flush, fsync(file), fsync(dir) with no write in between; persist points — create/delete end synced, persist(a) is exactly "
+            "its effects, Always(a)/due OnDelay(a) calls end flushed/synced; buffer_empty_of_flushedAtEnd and flush_then_unlink(_image) — "
+            "at a persist point nothing is left in the BufWriter and every OS-level unlink comes after all earlier writes. NOT yet proved: "
+            "that recovery from any image after the persist point yields a state at least as recent (needs the byte-level torn-tail "
+            "theorem, in progress); that part is enumerated: every crash image of generated histories under 7 policies is opened by the "
+            "real library and the model and judged by the prefix-state oracle with the last persist point as lower bound.",
+            "Lean 4 proof of the effect-order part + crash-point enumeration under 7 policies, differential"),
     "C04": ("Lean theorems: the specification's next position never decreases within an incarnation and appended positions are fresh, "
             "consecutive and >= next (spec_next_mono, spec_append_fresh, spec_run_next_mono, spec_below_preserved), transferred to the model "
             "through the C05 refinement (C04_model_*). Restart/crash legs: C01 journal theorem + crash campaign oracle.",
@@ -32,9 +37,12 @@ TEXT = {
             "Spec.step through the abstraction map and returns its logical outcome; range/last_position/last_record equal the "
             "specification's for all 9 bound shapes (range_eq_filter). The model is tied to the code per call (outcome, state, range).",
             "Lean 4 refinement proof to an abstract queue-map specification + differential correspondence"),
-    "C06": ("Lean theorems about the tracked file set (files_grow_by_succ, files_accounted, cur_tracked; C06_reclaim in progress) and the "
-            "listing-vs-attribution oracle on the real library after every truncate/delete/open.",
-            "Lean 4 proof (file-set invariants) + differential correspondence + directory oracle"),
+    "C06": ("Lean theorems: filesOk_step/_run (the tracked files stay a contiguous run ending at the file being written, along every clean "
+            "history), C06_reclaim/_truncate/_delete/_open (after the call: contiguous, disk_used = files x file size, and the oldest file "
+            "left is either not older than the file being written when the call began or still referenced by a retained record), "
+            "no_premature_release (no unlinked file is referenced or current). Tied to the code by the directory listing / disk_used "
+            "correspondence and the listing-vs-attribution oracle after every truncate/delete/open.",
+            "Lean 4 proof (GC prefix invariant) + differential correspondence + directory oracle"),
     "C07": ("Lean theorem C07_roundtrip: for every geometry (7 < B <= 65542), every start cursor, every list of entries of any sizes, the "
             "reader positioned at the cursor reads back exactly the written entries and stops where the writer stopped; decode_encode for "
             "API-level entries. Tied to the code by byte-exact comparison of the real writer/reader (hook H4) with the model.",
